@@ -252,6 +252,22 @@ func (r *Run) applyContract(fr *Frame, st *State, instr ssa.Instruction, ct *Con
 			}
 		}
 	}
+	for _, fname := range ct.Fresh {
+		if fv, ok := vars[fname]; ok && fv.K == KPtr && fv.P.Kind == PHeap {
+			st.freshRefs = append(st.freshRefs, fv.P.T)
+			// a new object is none of the objects the caller already holds
+			for _, a := range args {
+				if a.K == KPtr && a.P.Kind == PHeap && len(a.P.Path) == 0 {
+					st.assume(not(app("=", fv.P.T, a.P.T)))
+				}
+			}
+			for _, pv := range r.vars {
+				if pv.K == KPtr && pv.P.Kind == PHeap && len(pv.P.Path) == 0 {
+					st.assume(not(app("=", fv.P.T, pv.P.T)))
+				}
+			}
+		}
+	}
 	post := &Env{r: r, st: st, old: pre, fr: nil, vars: vars, ctx: site}
 	used := false
 	for _, cl := range ct.Ensures {
